@@ -11,25 +11,43 @@ from ..common import Ctx, Tokens, b2f, close, driver_batch, f2b, fvec
 LEVEL = "proof"
 LEVEL_TEXT = (
     "Lean theorems over the reals, for every admissible n: trapezoid/midpoint (degree <= 1) and Simpson (degree <= 3, odd n) "
-    "integrate every polynomial of that degree exactly; Fejer-1 as coded (series length taken from the regenerated source) "
-    "integrates every polynomial of degree <= n-1 exactly; Gauss-Chebyshev-1 under the closed-form chebgauss contract, and "
+    "integrate every polynomial of that degree exactly; Fejer-1 and Clenshaw-Curtis as coded (series length, denominators, "
+    "frequencies and the last-coefficient patch taken from the regenerated source) integrate every polynomial of degree <= n-1 exactly; Gauss-Chebyshev-1 under the closed-form chebgauss contract, and "
     "the weight division / reversal the repository adds to any Gauss rule (Legendre, Chebyshev-2, Laguerre, alpha > -1) keep "
     "exactness up to degree 2n-1 (external nodes by contract GaussExact); for the 7 variable-substitution rules the generated "
     "weight expression is step x derivative of the generated node map at the node (HasDerivAt), nodes strictly ascending and "
     "inside the declared domain; closed-form rules have n ascending nodes in the domain; _derg2/_derg3/_dergstrip are the "
     "derivatives of _g2/_g3/_gstrip, g(+-1)=+-1, g'>0. Fejer-2 as coded is not exact (negation proved at n=2; known finding). "
-    "Clenshaw-Curtis / Fejer-2 exactness are not proved (kept as `_full` statements); they are decided by the exact-moment oracle."
+    "Not proved (kept as `_full` statements, decided by the oracle): Fejer-2 exactness (false for the code), monotonicity / end-point "
+    "limit of the strip map."
 )
 TECHNIQUE = "Lean 4 proof over R on formulas/bounds regenerated from the source + differential correspondence of all 26 constructors + exact-moment oracle"
 GEN = ["onedgrid"]
 LEAN_MODULES = [
     "GridVerif.Props.C01.NewtonCotes",
     "GridVerif.Props.C01.Fejer",
+    "GridVerif.Props.C01.ClenshawCurtis",
     "GridVerif.Props.C01.Gauss",
     "GridVerif.Props.C01.Subst",
     "GridVerif.Props.C01.Closed",
+    "GridVerif.Props.C01.Shape",
 ]
-THEOREMS = []  # filled below
+_T = {
+    "NewtonCotes": ["trapezoid_exact", "midpoint_exact", "simpson_exact"],
+    "Fejer": ["fejer1_gen_facts", "fejer1_exact_T", "fejer1_exact", "fejer2_weights_two", "fejer2_fails_at_2"],
+    "ClenshawCurtis": ["cc_gen_facts", "clenshawcurtis_exact_T", "clenshawcurtis_exact"],
+    "Gauss": ["gauss_weight_division", "quad_reverse_points_only", "gausslegendre_exact", "gausscheb2_exact",
+              "gausslaguerre_exact", "gausscheb1_exact"],
+    "Subst": [f"{c}_{t}" for c in ("tanhsinh", "expsinh", "logexpsinh", "expexp", "singletanh", "singleexp", "singlearcsinhexp")
+              for t in ("weight_is_step_times_deriv", "strictMono", "shape")] + ["tanhsinh_in_domain"],
+    "Closed": ["derg2_is_deriv_g2", "derg3_is_deriv_g3", "g2_endpoints", "g3_endpoints", "derg2_pos", "derg3_pos",
+               "dergstrip_is_deriv_gstrip"],
+    "Shape": ["trapezoidal_shape", "simpson_shape", "midpoint_shape", "rectanglesine_shape", "uniforminteger_shape",
+              "chebyshevlobatto_shape", "clenshawcurtis_shape", "fejerfirst_shape", "fejersecond_shape",
+              "chebyshevlobatto_weights_formula", "rectanglesine_weights_formula",
+              "trefethen_poly_shape", "trefethen_poly_reject", "trefethencc_shape"],
+}
+THEOREMS = [f"GridVerif.C01.{t}" for ts in _T.values() for t in ts]
 RULE = (
     "correspondence: each of the 26 constructors x every npoints in -1..40 plus sampled npoints <= 400 (odd and even) x "
     "default and random extra parameters (delta, h, alpha, d, rho, base quadrature) incl. rejected ones, constructor vs "
@@ -148,7 +166,7 @@ def _cases(ctx: Ctx):
         for cls in STEP:
             dflt = STEP_DEFAULT.get(cls, 0.1)
             hs = [dflt]
-            if small or rng.random() < 0.5:
+            if small or ctx.thorough or rng.random() < 0.5:
                 hs.append(round(rng.uniform(0.01, 0.6), 3))
             if n in (3, 4, 7) and cls != "TanhSinh":
                 hs += [0.0, -0.25]
@@ -163,7 +181,7 @@ def _cases(ctx: Ctx):
             add(cls, n, f"C01.make {cls} {n} " + gv(_gauss_for(cls, n)), (lambda c=cls, n=n: getattr(og, c)(n)), n >= 3, cls, rtol=1e-11)
         if n <= 200:
             alphas = [0.0]
-            if small or rng.random() < 0.5:
+            if small or ctx.thorough or rng.random() < 0.5:
                 alphas.append(round(rng.uniform(-0.95, 6.0), 3))
             if n in (2, 5):
                 alphas += [-1.0, -2.5]
@@ -178,7 +196,7 @@ def _cases(ctx: Ctx):
             add("TrefethenCC", n, f"C01.make TrefethenCC {n} {d}", (lambda n=n, d=d: og.TrefethenCC(n, d)), n >= 3 and d != 9, "TrefethenCC")
             add("TrefethenGC2", n, f"C01.make TrefethenGC2 {n} {d} " + gv(_gauss_for("TrefethenGC2", n)),
                 (lambda n=n, d=d: og.TrefethenGC2(n, d)), n >= 3 and d != 9, "TrefethenGC2")
-        rhos = [1.1] + ([round(rng.uniform(1.02, 4.0), 3)] if small or rng.random() < 0.5 else [])
+        rhos = [1.1] + ([round(rng.uniform(1.02, 4.0), 3)] if small or ctx.thorough or rng.random() < 0.5 else [])
         for rho in rhos:
             add("TrefethenStripCC", n, f"C01.make TrefethenStripCC {n} {f2b(rho)}", (lambda n=n, r=rho: og.TrefethenStripCC(n, r)),
                 n >= 3 and rho != 1.1, "TrefethenStripCC", rtol=1e-9)
@@ -681,8 +699,8 @@ def oracle(ctx: Ctx, budget: str):
     nmax = 64
     _oracle_moments(ctx, og, nmax)
     _oracle_weighted(ctx, og, nmax, ctx.rng)
-    _oracle_closed(ctx, og, ctx.rng, nmax if large else 24)
-    _oracle_subst(ctx, og, ctx.rng, nmax if large else 31, large)
+    _oracle_closed(ctx, og, ctx.rng, nmax if large else 40)
+    _oracle_subst(ctx, og, ctx.rng, nmax, large)
     _oracle_trefethen(ctx, og, ctx.rng, 40, 12 if large else 3)
     # rejected sizes
     for cls in ALL26:
